@@ -5,6 +5,7 @@ package main
 // (helpers: gen_imp.go, chain simulator: gen_led.go).
 
 import (
+	"fmt"
 	"strings"
 )
 
@@ -14,6 +15,9 @@ func genRem(g *Gen) {
 	nHist := g.Scale(90, 1500)
 	for h := 0; h < nHist || (!g.Covered() && h < 6*nHist); h++ {
 		genRemHistory(g, h)
+		if h%6 == 5 {
+			genRemMixed(g)
+		}
 	}
 	if !g.Quick() {
 		genRemBig(g)
@@ -235,4 +239,239 @@ func genRemBig(g *Gen) {
 	t.op("wallets", "wallets")
 	t.observe1([]string{"W2"}, true)
 	g.Stats["more-credits-than-one-step"]++
+}
+
+// genRemMixed: transactions with inputs from BOTH the wallet being removed (A) and a survivor (B), in both
+// input orders, paying A only / B only / both / strangers only, pending and mined, all delivered before the
+// removal request.  Whether such a record goes with A is `removable` (every input is looked at, not only the
+// first one with a mined credit - seeded mutation C08-2); the survivor's spent-by-unmined coins, the pending
+// set, coins and balance are observed with their specification columns after the removal, after some of the
+// pending ones were confirmed, after a confirmed double spend of B's coin and after a reorganisation that
+// returns the mined ones to the pending set.
+//
+// The history is written out op by op (no random chain simulator) so that MW.Spec.Pending applies throughout
+// (Drv.Imp.pendSpecOn): both wallets are funded by ONE transaction spending a coinbase of the survivor (no
+// spend of a coinbase that belongs to nobody after the removal) and no follower event happens between the
+// removal request and its last step.
+func genRemMixed(g *Gen) {
+	r := g.Rng
+	g.Reset()
+	op := g.Op
+	op("params", "params 4 3")
+	nW := 2 + r.Intn(2)
+	ai := 1 + r.Intn(nW) // the wallet that goes
+	bi := 1 + r.Intn(nW)
+	for bi == ai {
+		bi = 1 + r.Intn(nW)
+	}
+	A, B := fmt.Sprintf("W%d", ai), fmt.Sprintf("W%d", bi)
+	addrOf := map[string][]string{}
+	nA := 0
+	for i := 1; i <= nW; i++ {
+		w := fmt.Sprintf("W%d", i)
+		op("wallet", "wallet %s", w)
+		for k := 1 + r.Intn(2); k > 0; k-- {
+			nA++
+			a := fmt.Sprintf("A%d", nA)
+			addrOf[w] = append(addrOf[w], a)
+			op("addr", "addr %s %s std", w, a)
+		}
+	}
+	pick := func(w string) string { return addrOf[w][r.Intn(len(addrOf[w]))] }
+	var live []string
+	for i := 1; i <= nW; i++ {
+		if i != ai {
+			live = append(live, fmt.Sprintf("W%d", i))
+		}
+	}
+	seq := 0
+	next := func() int { seq++; return seq }
+	tip := "G"
+	nB := 0
+	mine := func(txs ...string) {
+		c := fmt.Sprintf("C%d", next())
+		op("tx", "tx %s %d cb X1:500", c, seq)
+		nB++
+		b := fmt.Sprintf("B%d", nB)
+		op("block", "block %s %s %s", b, tip, strings.Join(append([]string{c}, txs...), ";"))
+		op("submit", "submit %s", b)
+		op("notify", "notify %s", b)
+		tip = b
+	}
+	// the survivor's coinbase, matured, funds both wallets
+	op("tx", "tx K0 %d cb %s:1000000", next(), pick(B))
+	op("block", "block B0 G K0")
+	op("submit", "submit B0")
+	op("notify", "notify B0")
+	op("fill", "fill 4 F 1")
+	tip = "F.4"
+	const perWallet = 26
+	var outs []string
+	for i := 0; i < perWallet; i++ {
+		outs = append(outs, pick(A)+":1000")
+	}
+	for i := 0; i < perWallet; i++ {
+		outs = append(outs, pick(B)+":1000")
+	}
+	op("tx", "tx FUND %d K0:0 %s", next(), strings.Join(outs, ";"))
+	mine("FUND")
+	na, nb := 0, 0
+	coinA := func() string { na++; return fmt.Sprintf("FUND:%d", na-1) }
+	coinB := func() string { nb++; return fmt.Sprintf("FUND:%d", perWallet+nb-1) }
+	type mixed struct {
+		name  string
+		bCoin string
+	}
+	build := func(state string, order, dest int) mixed {
+		a, b := coinA(), coinB()
+		ins := []string{a, b}
+		if order == 1 {
+			ins = []string{b, a}
+		}
+		if r.Intn(4) == 0 && na < perWallet-1 {
+			// a second coin of A in front
+			ins = append([]string{coinA()}, ins...)
+			g.Stats["mix-three-inputs"]++
+		}
+		total := 1000 * len(ins)
+		var o string
+		switch dest {
+		case 0:
+			o = fmt.Sprintf("%s:%d", pick(A), total-100)
+		case 1:
+			o = fmt.Sprintf("%s:%d", pick(B), total-100)
+		case 2:
+			o = fmt.Sprintf("%s:%d;%s:%d", pick(A), total/2-100, pick(B), total/2)
+			if r.Intn(2) == 0 {
+				o = fmt.Sprintf("%s:%d;%s:%d", pick(B), total/2, pick(A), total/2-100)
+			}
+		default:
+			o = fmt.Sprintf("X%d:%d", 2+r.Intn(2), total-100)
+		}
+		name := fmt.Sprintf("%s%d", map[string]string{"pend": "U", "mined": "M"}[state], next())
+		op("tx", "tx %s %d %s %s", name, seq, strings.Join(ins, ";"), o)
+		g.Stats[fmt.Sprintf("mix-%s-%s-%s", state, []string{"afirst", "bfirst"}[order], []string{"toA", "toB", "toAB", "toX"}[dest])]++
+		return mixed{name, b}
+	}
+	observe := func(tag string) {
+		op("q-pend", "pend")
+		for _, w := range live {
+			op("mix-sbu-"+tag, "sbu %s", w)
+			op("q-utxos", "utxos %s", w)
+			op("q-bal", "bal %s 1", w)
+			op("q-bal0", "bal %s 0", w)
+			op("q-shistp", "shistp %s", w)
+		}
+	}
+	// ---- mined mixed transactions
+	var minedTx []mixed
+	for order := 0; order < 2; order++ {
+		for dest := 0; dest < 4; dest++ {
+			if r.Intn(3) > 0 {
+				minedTx = append(minedTx, build("mined", order, dest))
+			}
+		}
+	}
+	r.Shuffle(len(minedTx), func(i, j int) { minedTx[i], minedTx[j] = minedTx[j], minedTx[i] })
+	var names []string
+	for _, m := range minedTx {
+		names = append(names, m.name)
+	}
+	forkBelowMixed, forkB := tip, nB
+	mine(names...)
+	// ---- pending mixed transactions
+	var pend []mixed
+	for order := 0; order < 2; order++ {
+		for dest := 0; dest < 4; dest++ {
+			if r.Intn(4) > 0 {
+				m := build("pend", order, dest)
+				op("recvtx", "recvtx %s", m.name)
+				pend = append(pend, m)
+			}
+		}
+	}
+	if r.Intn(3) == 0 {
+		mine()
+	}
+	observe("before")
+	op("residue-before", "residue %s", A)
+	// ---- the removal (nothing is delivered between the request and the last step)
+	op("remove", "remove %s good", A)
+	op("wallets", "wallets")
+	if r.Intn(3) == 0 {
+		op("restart", "restart")
+		op("inittasks", "inittasks")
+		g.Stats["restart-before-removal-step"]++
+	}
+	op("tasks", "tasks")
+	op("rembegin", "rembegin %s", A)
+	op("remstep", "remstep")
+	op("remstep-extra", "remstep")
+	op("residue-after", "residue %s", A)
+	op("wallets", "wallets")
+	observe("after")
+	g.Stats["mix-history"]++
+	// ---- some of the kept pending transactions are confirmed, one is double spent by a confirmed transaction
+	var conf []string
+	var rest []mixed
+	for _, m := range pend {
+		if r.Intn(3) == 0 {
+			conf = append(conf, m.name)
+		} else {
+			rest = append(rest, m)
+		}
+	}
+	if len(rest) > 0 && r.Intn(3) > 0 {
+		m := rest[r.Intn(len(rest))]
+		d := fmt.Sprintf("D%d", next())
+		op("tx", "tx %s %d %s %s:900", d, seq, m.bCoin, pick(B))
+		conf = append(conf, d)
+		g.Stats["mix-kept-pending-double-spent"]++
+	}
+	mine(conf...)
+	observe("confirmed")
+	// ---- a reorganisation below the mined mixed transactions: they return to the pending set (some are
+	// mined again on the new branch)
+	if r.Intn(3) > 0 {
+		depth := nB - forkB
+		for i := 0; i < depth; i++ {
+			op("detach", "detach")
+		}
+		tip = forkBelowMixed
+		var again []string
+		for _, m := range minedTx {
+			if r.Intn(3) == 0 {
+				again = append(again, m.name)
+			}
+		}
+		// the new branch is one block longer than the old one; the follower hears of its last block only
+		for i := 0; i <= depth; i++ {
+			c := fmt.Sprintf("C%d", next())
+			op("tx", "tx %s %d cb X1:500", c, seq)
+			b := fmt.Sprintf("R%d", i)
+			txs := []string{c}
+			if i == 0 {
+				txs = append(txs, again...)
+			}
+			op("block", "block %s %s %s", b, tip, strings.Join(txs, ";"))
+			op("submit", "submit %s", b)
+			tip = b
+		}
+		op("notify", "notify %s", tip)
+		g.Stats["reorg-after-removal"]++
+		g.Stats["mix-mined-back-to-pending"]++
+		observe("reorganised")
+	}
+	op("residue-later", "residue %s", A)
+	// ---- the same mnemonic comes back: its coins spent by the kept transactions are spent for it as well
+	if r.Intn(3) == 0 {
+		op("reimport", "import %s mn %d", A, len(addrOf[A]))
+		op("tasks", "tasks")
+		op("impstep-flush", "impstep %s", A)
+		op("impstep-flush", "impstep %s", A)
+		live = append(live, A)
+		observe("reimported")
+		op("residue-reimported", "residue %s", A)
+		g.Stats["reimport"]++
+	}
 }
